@@ -78,6 +78,28 @@ Section Score.
   Definition sc_unstripe (sc : sscores T) : res (list T) :=
     mapM (sc_get sc) (seq 0 (Nat.min (sc_max sc) (length (sc_mat sc) * C))).
 
+  (* offset(MatrixCoordinates { row, col }) = col * rows + row *)
+  Definition sc_offset (sc : sscores T) (row col : nat) : nat := col * length (sc_mat sc) + row.
+
+  (* Iter::new: the index range 0 .. min(max_index, rows * columns) *)
+  Definition sc_iter_end (sc : sscores T) : nat := Nat.min (sc_max sc) (length (sc_mat sc) * C).
+
+  (* one iterator driven by a list of calls (false = next, true = next_back) from the index
+     range lo..hi: each call yields Some value or None (exhausted, fused) *)
+  Fixpoint sc_iter_run (sc : sscores T) (ops : list bool) (lo hi : nat) : res (list (option T)) :=
+    match ops with
+    | [] => Ok []
+    | back :: r =>
+        if lo <? hi then
+          rbind (sc_get sc (if back then hi - 1 else lo)) (fun x =>
+          rbind (sc_iter_run sc r (if back then lo else S lo) (if back then hi - 1 else hi)) (fun rest =>
+          Ok (Some x :: rest)))
+        else rbind (sc_iter_run sc r lo hi) (fun rest => Ok (None :: rest))
+    end.
+
+  Definition sc_iter_ops (sc : sscores T) (ops : list bool) : res (list (option T)) :=
+    sc_iter_run sc ops 0 (sc_iter_end sc).
+
   (* ---------- StripedSequence ---------- *)
 
   (* s.matrix().rows() - s.wrap() *)
@@ -184,6 +206,17 @@ Section Score.
 
   Definition score_def (pssm : list (list T)) (s : list nat) (i : nat) : T :=
     fold_left add (score_terms pssm s i) zero.
+
+  (* what a double-ended iterator over the values f lo .. f (hi - 1) yields for a list of calls *)
+  Fixpoint iter_spec (f : nat -> T) (ops : list bool) (lo hi : nat) : list (option T) :=
+    match ops with
+    | [] => []
+    | back :: r =>
+        if lo <? hi then
+          Some (f (if back then hi - 1 else lo))
+          :: iter_spec f r (if back then lo else S lo) (if back then hi - 1 else hi)
+        else None :: iter_spec f r lo hi
+    end.
 
   (* rows of the striped matrix of a sequence of length L *)
   Definition seq_R (L : nat) : nat := (L + (C - 1)) / C.
